@@ -19,6 +19,10 @@ import (
 // well. Bytes the reference rejects are not explored (the schema language is a
 // superset: annotations, comments, shortcuts).
 
+// maxRTS bounds the return-to-step stack in the product explorations: on inputs of bounded nesting a
+// correct scanner keeps it at depth <= 2 (escape / comment / annotation return points).
+const maxRTS = 6
+
 // jsCfg extends implCfg with the scanner's context and context stack.
 type jsCfg struct {
 	implCfg
@@ -357,6 +361,11 @@ func c03subset(c *core.Ctx) {
 				report(core.F("step:%s:%q/stack=%s", it.ic.step, rune(b), strings.Join(topN(it.ic.stack, 2), ",")), fpos,
 					core.F("state %s on byte %q (top of stack %v)", it.ic.step, rune(b), topN(it.ic.stack, 2)),
 					core.F("byte %q continues a valid JSON text after %q but the schema scanner rejects it", string(rune(b)), it.w))
+				continue
+			}
+			if len(ni.rts) > maxRTS || len(ni.stack) > 4*maxNesting+8 || len(ni.ctxStack) > maxNesting+2 {
+				report(core.F("growth:%s:%q", it.ic.step, rune(b)), fpos, core.F("state %s on byte %q", it.ic.step, rune(b)),
+					core.F("a stack of the scanner grows without bound on input whose nesting is bounded (return stack %d, lexeme stack %d, context stack %d after %q): a state is entered by a push that is never popped, so the scanner returns to the wrong state later", len(ni.rts), len(ni.stack), len(ni.ctxStack), it.w+string(rune(b))))
 				continue
 			}
 			k := ni.key() + "#" + nr.key()
